@@ -8,6 +8,7 @@ import (
 	"sort"
 	"fmt"
 	"regexp"
+	"strconv"
 	"strings"
 )
 
@@ -30,6 +31,7 @@ type c13Decl struct {
 	Kind     string // local-number local-string local-table global global-function local-function member-dot member-colon
 	Params   []string
 	Literal  string   // literal value as written ("" if none asserted)
+	Float    string   // a float literal as written ("" if none): the label shows a numeral of the same value
 	Local    bool
 	Comment  []string // expected documentation lines (already without markers); nil = none
 	Place    string   // trailing / block1..3 / both / none / detached
@@ -115,6 +117,14 @@ func c13GenFile(r *Rng, idx int) (string, []c13Decl) {
 		case "local-number":
 			d.Literal = fmt.Sprint(r.Intn(100000))
 			d.Local = true
+			if rf := r.Fork(uint64(0x666c74 + i)); rf.Chance(1, 3) {
+				// a float literal: up to 17 significant digits, values around 2^24 and 2^53, exponents beyond the single-precision range
+				d.Float = rf.Pick([]string{"3.14159265358979", "123456.789", "16777217.0", "0.333333333333", "1e40", "1e-40", "9007199254740993.0", "0.1", "2.5e-3", "1.7976931348623157e308",
+					fmt.Sprintf("%d.%d", rf.Intn(100000), 1+rf.Intn(99999999)), fmt.Sprintf("0.%d%d", 1+rf.Intn(999999), 1+rf.Intn(99999999)), fmt.Sprintf("%d.5e%d", 1+rf.Intn(9999999), rf.Intn(60)-30)})
+				d.Literal = ""
+				stmt = fmt.Sprintf("local %s = %s", d.Name, d.Float)
+				break
+			}
 			stmt = fmt.Sprintf("local %s = %s", d.Name, d.Literal)
 		case "local-string":
 			d.Literal = fmt.Sprintf("\"v%d %s\"", r.Intn(100), r.Pick([]string{"abc", "é", "中", "x y"}))
@@ -384,6 +394,20 @@ func runC13(c *Ctx) {
 					}
 					if d.Literal != "" && !strings.Contains(label, d.Literal) {
 						c.Report("label-misses-literal|"+cls, fmt.Sprintf("hover label %q does not show the literal %s", truncate(label, 160), d.Literal), witness)
+					}
+					if d.Float != "" {
+						// the label shows the value in a notation of the tool's choosing: it must be the value of the literal
+						want, _ := strconv.ParseFloat(d.Float, 64)
+						m := regexp.MustCompile(`=\s*([-+]?(?:[0-9.]+(?:[eE][-+]?[0-9]+)?|Inf|NaN))`).FindStringSubmatch(label)
+						c.Count("float_literal_labels_checked", 1)
+						if got, err := strconv.ParseFloat(strings.TrimPrefix(func() string {
+							if m == nil {
+								return "x"
+							}
+							return m[1]
+						}(), "+"), 64); m == nil || err != nil || got != want {
+							c.Report("label-shows-another-number|"+cls, fmt.Sprintf("hover label %q for a variable declared with the literal %s does not show a numeral of that value", truncate(label, 160), d.Float), witness)
+						}
 					}
 					if len(d.Params) > 0 {
 						re := regexp.MustCompile(`\b` + strings.Join(d.Params, `\b[^,()]*,\s*\b`) + `\b`)
